@@ -228,7 +228,10 @@ pub fn run_shard(mon: &dyn Monitor, tier: Tier, seed: u64, first: u64, step: u64
             // a panic escaped a monitor: either the library panicked inside a read accessor /
             // call the monitor did not guard, or the harness itself is wrong
             let (loc, msg) = LAST_PANIC.lock().map(|g| g.clone()).unwrap_or_default();
-            let in_library = loc.starts_with("/repo/") || loc.contains("/mrecordlog/") || loc.starts_with(&std::env::var("VERIF_REPO_PREFIX").unwrap_or_else(|_| "\u{0}".into()));
+            // the harness's own locations are relative ("src/monitors/..."), std's start with
+            // /rustc/, registry crates live under .cargo: an absolute path outside those is
+            // the path dependency, i.e. the library under test
+            let in_library = loc.starts_with('/') && !loc.starts_with("/rustc/") && !loc.contains("/.cargo/");
             let short_loc = loc.rsplit_once("/src/").map(|x| format!("src/{}", x.1)).unwrap_or(loc.clone());
             if in_library && mon.library_panic_is_violation() {
                 acc.violation(
